@@ -113,6 +113,7 @@ func ruleShapePairs(c *Ctx, p *core.Program, rule string, pairs []msgPair, withP
 				o := langOpts{p: p, classify: cls, revision: r}
 				ea := buildLang(mp.enc, o)
 				da := buildLang(mp.dec, o)
+				normaliseRaw(ea, da)
 				ed, dd := ea.determinize(), da.determinize()
 				rs.undec = append(append([]string{}, ea.undec...), da.undec...)
 				if dd.isEmpty() {
@@ -342,8 +343,22 @@ func runC17(c *Ctx) {
 
 // fieldsTouched: names of the fields of message type tname read (write=false)
 // or stored (write=true) in fn through its receiver.
-func fieldsTouched(fn *ssa.Function, tname string, write bool) map[string]bool {
+func fieldsTouched(root *ssa.Function, tname string, write bool) map[string]bool {
 	out := map[string]bool{}
+	var fns []*ssa.Function
+	for f := range core.StaticReach(root, 2) {
+		if f == root {
+			fns = append(fns, f)
+			continue
+		}
+		// helpers of the same message type (methods on it, or functions taking it)
+		if recv := f.Signature.Recv(); recv != nil {
+			if n := core.NamedOf(recv.Type()); n != nil && n.Obj().Name() == tname {
+				fns = append(fns, f)
+			}
+		}
+	}
+	for _, fn := range fns {
 	for _, b := range fn.Blocks {
 		for _, in := range b.Instrs {
 			switch x := in.(type) {
@@ -384,6 +399,7 @@ func fieldsTouched(fn *ssa.Function, tname string, write bool) map[string]bool {
 				}
 			}
 		}
+	}
 	}
 	return out
 }
